@@ -574,13 +574,15 @@ class Engine:
                         return None
                     if x is not None:
                         nst = x
-            return self.variant_feasible(nst, inner, v)
+            return self.variant_feasible(nst, inner, v, b)
         # bool-typed discriminant
-        if listed == ["0"] and counter_read(d) is None:
+        # `weak_count` is `weak - 1`: an integer switch on it is a switch on the counter
+        shifted = d[0] == "bin" and d[1] in ("Sub", "SubUnchecked") and is_const(d[3]) and counter_read(d[2]) is not None
+        if listed == ["0"] and counter_read(d) is None and not shifted:
             return self.assume(st, d, v != "0", b)
         # integer switch on a counter value: `match strong { 0 | MAX => .., _ => .. }`
         g = counter_read(d)
-        if g is not None:
+        if g is not None or shifted:
             if v == "otherwise":
                 for lv in listed:
                     st = self.assume(st, ("bin", "Eq", d, const(lv)), False, b)
@@ -592,9 +594,16 @@ class Engine:
             return self.assume(st, d, v != "0", b)
         return st
 
-    def variant_feasible(self, st, inner, v):
+    def variant_feasible(self, st, inner, v, b=None):
         """Iterator::next on an iterator over a table known to be empty cannot yield Some;
         Vec::pop on a vector that was pushed to since the last removal cannot yield None."""
+        # count.checked_add(1) is None exactly at usize::MAX, count.checked_sub(1) exactly at 0
+        if inner[0] == "call" and inner[2] in ("core::num::<impl usize>::checked_add", "core::num::<impl usize>::checked_sub") and len(inner[3]) == 2 \
+                and is_const(inner[3][1], 1) and counter_read(inner[3][0]) is not None and v in ("0", "1"):
+            edge = const(MAX) if inner[2].endswith("checked_add") else const(0)
+            st = self.assume(st, ("bin", "Eq", inner[3][0], edge), v == "0", b)
+            if st is None:
+                return None
         if inner[0] == "call" and (inner[2].startswith("alloc::vec::Vec::<T") or inner[2].startswith("alloc::collections::VecDeque::<T")) and is_pop_call(inner[2]) and v == "0" and inner[3]:
             if ("popne", inner[1]) in st.flags:
                 return None
@@ -647,6 +656,15 @@ class Engine:
                                 if x2 is not None:
                                     st = x2
                         return st
+                # the payload of `count.checked_add(k)` / `checked_sub(k)` is count + k / count - k
+                if x[0] == "field" and x[1][0] == "variant" and x[1][2] == "Some" and x[1][1][0] == "call" and x[1][1][2].startswith("core::num::<impl usize>::checked_") \
+                        and len(x[1][1][3]) == 2 and is_const(x[1][1][3][1]) and counter_read(x[1][1][3][0]) is not None:
+                    cc = x[1][1]
+                    x = ("bin", "Add" if cc[2].endswith("checked_add") else "Sub", cc[3][0], cc[3][1])
+                if x[0] == "bin" and x[1] in ("Add", "AddUnchecked") and is_const(x[3]) and counter_read(x[2]) is not None and int(y[1]) >= int(x[3][1]):
+                    # (count + k) op c  <=>  count op (c - k)   (no wrap: the addition was checked on every such path)
+                    y = const(int(y[1]) - int(x[3][1]))
+                    x = x[2]
                 if x[0] == "bin" and x[1] in ("Sub", "SubUnchecked") and is_const(x[3]) and counter_read(x[2]) is not None:
                     # (count - k) op c  <=>  count op (c + k)   (no wrap: count >= k on every such read in practice)
                     y = const(int(y[1]) + int(x[3][1]))
@@ -877,7 +895,10 @@ class Engine:
             # unwinding is modelled for user code (the fault set of C11), explicit panics and unknown
             # foreign calls; allocation failure / capacity overflow inside alloc and hashbrown, and
             # RefCell borrow panics (excluded by BRW-2), are not part of any property's fault model
-            can_unwind = any(ev.kind in ("user", "handle_drop", "indirect", "panic", "extcall") for ev in evs)
+            # a failing `debug_assert!` of the crate is outside every property's fault model too: it states an
+            # invariant, is compiled out of release builds, and cannot be relied on for behaviour
+            can_unwind = any(ev.kind in ("user", "handle_drop", "indirect", "extcall") or
+                             (ev.kind == "panic" and not str(ev.get("macro") or "").startswith("debug_assert")) for ev in evs)
             if can_unwind:
                 if any(ev.kind in ("user", "handle_drop", "indirect") for ev in evs):
                     self.obl("UNW-1", "unwind-edge-of-user-call", b)
@@ -990,9 +1011,15 @@ class Engine:
             else:
                 A("store", place=mk_deref(args[0]), value=args[1])
             return evs, False
-        if d in ("core::ptr::drop_in_place", "core::mem::drop", "core::mem::ManuallyDrop::<T>::drop") and args:
+        if d in ("core::ptr::drop_in_place", "core::mem::drop", "core::mem::ManuallyDrop::<T>::drop", "core::mem::MaybeUninit::<T>::assume_init_drop",
+                 "core::ptr::mut_ptr::<impl *mut T>::drop_in_place") and args:
             targ = (callee.get("targs") or [{}])[0]
             v = args[0] if d == "core::mem::drop" else mk_deref(args[0])
+            bp = box_part(args[0]) if d != "core::mem::drop" else None
+            if bp is not None and bp[1] in ("value", "links"):
+                # the contents of a box destroyed where they are: a move-out and the destruction of what was moved, in one
+                v = ("call", b, "in-place-drop", (args[0],))
+                A("moveout", box=bp[0], field=bp[1], how="in-place", res=v)
             evs.extend(self.drop_events(b, targ, v, t))
             for ev in evs:
                 ev.a["via"] = d
@@ -1203,6 +1230,11 @@ def classify_set(v, bp, st):
 
 
 def classify_init(v):
+    # a newtype of the crate around the counter cell (`Counter(Cell::new(1))`)
+    n = 0
+    while v[0] == "agg" and v[2].startswith("cactusref::") and len(v[5]) == 1 and n < 3:
+        v = v[5][0][1]
+        n += 1
     if v[0] == "call" and v[2] == "core::cell::Cell::<T>::new" and v[3]:
         if is_const(v[3][0], 1):
             return "one"
